@@ -288,3 +288,16 @@ PROPS["C14"] = dict(
         R("C14.kademlia_concurrent", "kad", "TestC14Cache", 10, 300, race=True, shrink=5),
     ],
 )
+
+PROPS["C04"] = dict(
+    level="exploration",
+    technique="property-based testing (rapid) over live secure stacks with known key pairs, wrong-identity destinations, whitelists in both orders of first contact, and a forked SSH client that reorders authentication steps; key-ledger oracle evaluated inside every callback",
+    level_text="The harness knows every node's key pair; every callback checks that Src's identity and the key looked up in the handler belong to the real sender, that a payload addressed to identity X reaches only the holder of X, and that whitelisted-out sources never reach a callback. For SSH a fork of the client library executes generated query/sign step lists with attacker and victim keys. Holds on everything generated.",
+    level_note="For QUIC the adversary is limited to honest TLS handshakes with its own key and wrong-identity dialling (a lying TLS stack is out of reach). The SSH adversary is a copy of golang.org/x/crypto/ssh v0.9.0 with one added auth method.",
+    design_ref="4/C04",
+    assumptions=["QUIC peers run the stock TLS handshake", "the SSH adversary cannot produce signatures for keys it does not hold"],
+    subs=[
+        R("C04.p2pke_quic_attribution", "secure", "TestC04Attribution", 120, 5000, shrink=10, quick=dict(checks=120, shards=4, timeout=900)),
+        R("C04.ssh_auth_step_adversary", "secure", "TestC04SSHAdversary", 60, 3000, shrink=10, quick=dict(checks=60, shards=2, timeout=600)),
+    ],
+)
